@@ -75,6 +75,27 @@ def _range_call(I, k, v):
 
 # ---------------------------------------------------------------------------- AwesomeVersion (A-AV)
 
+def _av_release_facts(I, t):
+    """A-AV on release-shaped strings: dec(M) "." dec(m) ["." dec(p) ["." dec(b)]] with non-negative parts is valid and its
+    first two sections are M and m (validated against the real library by props/assumptions.py:a_av)."""
+    from . import strings
+    ps = strings.parts_of(t)
+    if not (3 <= len(ps) <= 7 and len(ps) % 2 == 1):
+        return
+    nums = []
+    for i, p in enumerate(ps):
+        if i % 2 == 1:
+            if p != ".":
+                return
+        else:
+            if isinstance(p, str) or not (z3.is_app(p) and p.decl().name() == "dec"):
+                return
+            nums.append(p.arg(0))
+    nonneg = z3.And(*[x >= 0 for x in nums])
+    I.c.assume(z3.Implies(nonneg, z3.And(L.av_valid(t), L.av_section(t, z3.IntVal(0)) == nums[0], L.av_section(t, z3.IntVal(1)) == nums[1],
+                                          L.av_nsec(t) == len(nums))))
+
+
 def _av_install(lib):
     import ast as _ast
     from .interp import is_sym
@@ -86,6 +107,8 @@ def _av_install(lib):
         if not (isinstance(s, str) or is_sym(s, "str")):
             raise Unsupported("AwesomeVersion of a non-string")
         o = LibObj("awesomeversion", s=s)
+        if not isinstance(s, str):
+            _av_release_facts(I, s.term)
 
         def attr(I2, name, fr2, n2, o=o):
             st = I2.to_term(o.s, TStr)
